@@ -12,8 +12,20 @@ sys.path.insert(0, '/verif/tools/mutants')
 from catalogue import M
 WT, MV = '/tmp/mut-wt', '/tmp/mutv'
 env = dict(os.environ, CARGO_NET_OFFLINE='true', RUST_BACKTRACE='0')
+class R:  # result of sh()
+    def __init__(self, rc, out, err): self.returncode, self.stdout, self.stderr = rc, out, err
 def sh(cmd, cwd=None, timeout=3600):
-    return subprocess.run(cmd, shell=True, cwd=cwd, env=env, capture_output=True, text=True, timeout=timeout)
+    """Run in its own process group; on timeout kill the whole group (a hanging test binary is a
+    grandchild of cargo and would otherwise keep the pipes open forever). rc 124 = timed out."""
+    import signal
+    p = subprocess.Popen(cmd, shell=True, cwd=cwd, env=env, stdout=subprocess.PIPE, stderr=subprocess.PIPE, text=True, start_new_session=True)
+    try:
+        out, err = p.communicate(timeout=timeout)
+        return R(p.returncode, out, err)
+    except subprocess.TimeoutExpired:
+        os.killpg(p.pid, signal.SIGKILL)
+        out, err = p.communicate()
+        return R(124, out, err)
 sh(f'git -C /repo worktree remove --force {WT}'); shutil.rmtree(WT, ignore_errors=True)
 assert sh(f'git -C /repo worktree add -q --detach {WT} HEAD').returncode == 0
 shutil.rmtree(MV, ignore_errors=True); os.makedirs(MV)
